@@ -141,7 +141,19 @@ func replayNode(w *World, orig *HotNode, log []storage.Message, tag string, batc
 			if batching {
 				fh.limit = 1 + w.Tape.Choose(6, "replayBatch")
 			}
+			if restarts && w.Tape.Bool(1, 5, "replayKill") {
+				// a hard kill somewhere inside this tick
+				w.ArmCrash(idx, 1+w.Tape.Choose(14, "killAt"))
+			}
 			w.RunPollTick(p)
+			w.CrashAtGate = 0
+			if nd.inc == nil {
+				w.Stats.Fault("kill-during-replay")
+				if err := w.RestartNode(nd); err != nil {
+					panic(err)
+				}
+				continue
+			}
 		}
 		if restarts && w.Tape.Bool(1, 6, "replayRestart") && nd.inc != nil {
 			w.stopNode(nd, true)
